@@ -41,6 +41,18 @@ type Env struct {
 	bound  map[string]Sort
 	lets   map[string]SExpr
 	oldLookup func(name string) (TV, bool)
+	// emit receives heap well-formedness facts about references read while evaluating:
+	// whatever is stored in memory refers to an object that has been allocated
+	emit func(Term)
+	// topFor: the allocation counter at the time a heap version was created (objects
+	// referenced from that version existed then); nil means "use the state's counter"
+	topFor func(heapVersion Term) (Term, bool)
+	wfSeen map[string]bool
+	// absolute-index form of a bounded quantifier: bound variable absVar is represented as
+	// (absK - absOff) so that absVar-indexing of the slice with offset absOff selects at absK
+	absVar string
+	absK   Term
+	absOff string
 	oldNames map[string]TV // names as of the pre-state (for old(x) on call-site ghost)
 }
 
@@ -53,6 +65,47 @@ func (e *Env) heap(st *State, name string) Term {
 		panic("unknown heap " + name)
 	}
 	return Sym(name+"@0", s)
+}
+
+// wf records that the reference (or slice) v read from state st denotes an allocated object.
+func (e *Env) wf(st *State, v Term, typ types.Type, heapName string) {
+	if e.emit == nil || typ == nil || heapName == "" {
+		return
+	}
+	hv := e.heap(st, heapName)
+	top := e.heap(st, "G$allocTop")
+	if e.topFor != nil {
+		if t, ok := e.topFor(hv); ok {
+			top = t
+		}
+	}
+	if e.wfSeen != nil {
+		if e.wfSeen[hv.S] {
+			return
+		}
+		e.wfSeen[hv.S] = true
+	}
+	// one axiom per heap version (simple select patterns): every cell holds nil or a
+	// reference to an object that existed when that version of the heap came into being
+	_, valSort := hv.Sort.ArrayParts()
+	var body func(x string) string
+	switch typ.Underlying().(type) {
+	case *types.Pointer, *types.Map, *types.Interface, *types.Signature, *types.Chan:
+		body = func(x string) string { return fmt.Sprintf("(and (>= %s 0) (<= (root %s) %s))", x, x, top.S) }
+	case *types.Slice:
+		body = func(x string) string {
+			return fmt.Sprintf("(and (<= (root (sl.arr %s)) %s) (>= (sl.arr %s) 0) (<= 0 (sl.len %s)) (<= (sl.len %s) (sl.cap %s)) (<= 0 (sl.off %s)))", x, top.S, x, x, x, x, x)
+		}
+	default:
+		return
+	}
+	if valSort.IsArray() {
+		x := fmt.Sprintf("(select (select %s a) i)", hv.S)
+		e.emit(Term{fmt.Sprintf("(forall ((a Int) (i Int)) (! %s :pattern (%s)))", body(x), x), SBool})
+	} else {
+		x := fmt.Sprintf("(select %s r)", hv.S)
+		e.emit(Term{fmt.Sprintf("(forall ((r Int)) (! %s :pattern (%s)))", body(x), x), SBool})
+	}
 }
 
 func (e *Env) withState(st *State) *Env {
@@ -153,6 +206,9 @@ func (e *Env) eval(x SExpr) TV {
 }
 
 func (e *Env) ident(name string) TV {
+	if e.absVar != "" && name == e.absVar {
+		return TV{Sub(e.absK, Term{e.absOff, SInt}), nil}
+	}
 	if s, ok := e.bound[name]; ok {
 		if s == SStr {
 			return TV{Sym(name, s), types.Typ[types.String]}
@@ -330,7 +386,9 @@ func (e *Env) fieldOf(st *State, base Term, typ types.Type, f string) TV {
 			return TV{e.w.SubRef(key, f, base), types.NewPointer(fl.Type())}
 		}
 		h := e.w.FieldHeap(key, f, e.w.SortOf(fl.Type()))
-		return TV{Select(e.heap(st, h), base), fl.Type()}
+		v := Select(e.heap(st, h), base)
+		e.wf(st, v, fl.Type(), h)
+		return TV{v, fl.Type()}
 	}
 	e.fail("struct %s has no field %s", key, f)
 	return TV{}
@@ -379,13 +437,18 @@ func (e *Env) index(x SIndex) TV {
 	switch u := b.Typ.Underlying().(type) {
 	case *types.Slice:
 		abs := Add(SlOff(b.T), i.T)
+		if id, ok := x.I.(SIdent); ok && e.absVar != "" && id.Name == e.absVar && SlOff(b.T).S == e.absOff {
+			abs = e.absK
+		}
 		if isStructType(u.Elem()) {
 			if _, _, local := e.w.localStruct(u.Elem()); local {
 				return TV{e.w.EltRef(SlArr(b.T), abs), types.NewPointer(u.Elem())}
 			}
 		}
 		h := e.w.ElemHeap(u.Elem())
-		return TV{Select(Select(e.heap(e.st, h), SlArr(b.T)), abs), u.Elem()}
+		v := Select(Select(e.heap(e.st, h), SlArr(b.T)), abs)
+		e.wf(e.st, v, u.Elem(), h)
+		return TV{v, u.Elem()}
 	case *types.Map:
 		// Go semantics: a missing key (or a nil map) yields the zero value
 		val, dom := e.w.MapHeaps(u)
@@ -503,6 +566,28 @@ func (e *Env) call(x SCall) TV {
 		var rng Term = True
 		body := x.Args[len(x.Args)-1]
 		if len(x.Args) == 4 {
+			// quantify over the absolute index of the first slice indexed by the bound variable:
+			// (select arr k) is then a trigger free of arithmetic
+			if sx := firstIndexedBy(body, id.Name); sx != nil && !mentions(sx, id.Name) {
+				if sv, err := n.EvalAny(sx); err == nil && sv.T.Sort == SSlice {
+					kname := id.Name + "$abs"
+					delete(n.bound, id.Name)
+					n.bound[kname] = SInt
+					off := SlOff(sv.T)
+					n.absVar, n.absK, n.absOff = id.Name, Sym(kname, SInt), off.S
+					jt := Sub(Sym(kname, SInt), off)
+					lo, hi := n.eval(x.Args[1]), n.eval(x.Args[2])
+					rng = And(Le(lo.T, jt), Lt(jt, hi.T))
+					b := n.eval(body)
+					var inner Term
+					if x.Fn == "forall" {
+						inner = Implies(rng, b.T)
+					} else {
+						inner = And(rng, b.T)
+					}
+					return TV{Term{fmt.Sprintf("(%s ((%s Int)) %s)", x.Fn, kname, inner.S), SBool}, types.Typ[types.Bool]}
+				}
+			}
 			lo, hi := n.eval(x.Args[1]), n.eval(x.Args[2])
 			rng = And(Le(lo.T, Sym(id.Name, SInt)), Lt(Sym(id.Name, SInt), hi.T))
 		}
@@ -762,4 +847,59 @@ func (w *World) RenderSpecFns() (string, error) {
 		}
 	}
 	return b.String(), nil
+}
+
+// firstIndexedBy finds the first sub-expression X in "X[v]" (v a bare identifier).
+func firstIndexedBy(x SExpr, v string) SExpr {
+	switch x := x.(type) {
+	case SIndex:
+		if id, ok := x.I.(SIdent); ok && id.Name == v {
+			return x.X
+		}
+		if r := firstIndexedBy(x.X, v); r != nil {
+			return r
+		}
+		return firstIndexedBy(x.I, v)
+	case SUnary:
+		return firstIndexedBy(x.X, v)
+	case SBinary:
+		if r := firstIndexedBy(x.X, v); r != nil {
+			return r
+		}
+		return firstIndexedBy(x.Y, v)
+	case SSel:
+		return firstIndexedBy(x.X, v)
+	case SCall:
+		if x.Fn == "forall" || x.Fn == "exists" || x.Fn == "forallstr" {
+			return nil
+		}
+		for _, a := range x.Args {
+			if r := firstIndexedBy(a, v); r != nil {
+				return r
+			}
+		}
+	}
+	return nil
+}
+
+func mentions(x SExpr, v string) bool {
+	switch x := x.(type) {
+	case SIdent:
+		return x.Name == v
+	case SIndex:
+		return mentions(x.X, v) || mentions(x.I, v)
+	case SUnary:
+		return mentions(x.X, v)
+	case SBinary:
+		return mentions(x.X, v) || mentions(x.Y, v)
+	case SSel:
+		return mentions(x.X, v)
+	case SCall:
+		for _, a := range x.Args {
+			if mentions(a, v) {
+				return true
+			}
+		}
+	}
+	return false
 }
